@@ -500,7 +500,10 @@ def instants_rule(F, rep):
         r = repr(inst)
         return {"me" if "('sym', 'me')" in r else None, "other" if "('sym', 'other')" in r else None} - {None}
     for fn, binary in (("compare", True), ("subtract", True), ("weekday", False)):
-        outs, ev = fold(F, FN[fn], [("sym", "me"), ("sym", "other")][:2 if binary else 1], hook)
+        # private helpers of the temporal module (an extracted `to_instant`) are folded at their call sites
+        inl = {n for n, h2 in F.hir.items() if n.startswith(T) and h2.get("kind") == "fn" and F.fns.get(n, {}).get("vis") != "pub" and n not in FN.values()
+               and n.split("::")[-1] not in ("get_local_offset", "get_zone_offset")}
+        outs, ev = fold(F, FN[fn], [("sym", "me"), ("sym", "other")][:2 if binary else 1], hook, inline=inl)
         key = "instants:%s" % fn
         if outs is None:
             rep.undecided(rid, key, "%s has too many paths to fold" % fn)
